@@ -11,7 +11,7 @@ from vcheck import coq_string, coq_list, coq_z
 
 HEADER = "From V.C13 Require Import Model Spec Run.\nOpen Scope string_scope.\n"
 
-KEYS = ["X-A", "X-B", "Content-Type", "Location", "Set-Cookie"]
+KEYS = ["X-A", "X-B", "Content-Type", "Location", "Set-Cookie", "x-a", "content-type", "LOCATION", "x-B"]
 VALS = ["1", "2", "text/plain"]
 CODES = [200, 201, 204, 302, 404, 500]
 BODIES = ["", "a", "bc"]
@@ -38,13 +38,31 @@ def op_pool():
     return pool
 
 
-def rand_op(rng):
-    k = rng.choice(["status", "status", "header", "header", "cookie", "write", "write", "html", "json",
-                    "redirect", "nocontent", "writeheader", "htmlwith", "formatted"])
+def script_pool():
+    """script-level only: default arguments, two-argument cookie, out-of-range codes"""
+    return op_pool() + [["header", "x-a", "3"], ["redirect0", "/t"], ["nocontent0"], ["success0"], ["error0"],
+                        ["cookie2", "sid", "7"], ["badstatus", "status", 0], ["badstatus", "writeHeader", 1000],
+                        ["badstatus", "noContent", 99]]
+
+
+def rand_op(rng, script=False):
+    kinds = ["status", "status", "header", "header", "cookie", "write", "write", "html", "json",
+             "redirect", "nocontent", "writeheader", "htmlwith", "formatted"]
+    if script:
+        kinds += ["redirect0", "nocontent0", "success0", "error0", "cookie2", "badstatus"]
+    k = rng.choice(kinds)
+    if k == "redirect0":
+        return [k, rng.choice(URLS)]
+    if k in ("nocontent0", "success0", "error0"):
+        return [k]
+    if k == "cookie2":
+        return [k, rng.choice(["sid", "t"]), rng.choice(["7", "x9"])]
+    if k == "badstatus":
+        return [k, rng.choice(["status", "writeHeader", "noContent"]), rng.choice([0, 99, 1000, -1, 10000])]
     if k == "status":
         return [k, rng.choice(CODES)]
     if k == "header":
-        return [k, rng.choice(KEYS[:4]), rng.choice(VALS)]
+        return [k, rng.choice(KEYS), rng.choice(VALS)]
     if k == "cookie":
         return [k, rng.choice(["sid", "t"]), rng.choice(["7", "x9"])]
     if k in ("write", "html"):
@@ -84,6 +102,18 @@ def coq_op(o):
         return "OHTMLWith %s %s" % (coq_string(o[1]), coq_z(o[2]))
     if k == "formatted":
         return "OFormatted %s %s" % (coq_z(o[1]), coq_string(formatted_body(o[1], o[2])))
+    if k == "redirect0":
+        return "ORedirect %s 302" % coq_string(o[1])
+    if k == "nocontent0":
+        return "ONoContent 204"
+    if k == "success0":
+        return "OFormatted 200 %s" % coq_string(formatted_body(200, "success"))
+    if k == "error0":
+        return "OFormatted 500 %s" % coq_string(formatted_body(500, "error"))
+    if k == "cookie2":
+        return "OCookie %s" % coq_string(o[1] + "=" + o[2])
+    if k == "badstatus":
+        return "ORefused"
     raise ValueError(k)
 
 
@@ -93,7 +123,59 @@ def formatted_body(code, msg):
     return '{"code":%d,"message":%s,"data":null,"timestamp":0}' % (code, json.dumps(msg))
 
 
-COMMITTING = ("write", "html", "json", "redirect", "nocontent", "writeheader", "htmlwith", "formatted")
+COMMITTING = ("write", "html", "json", "redirect", "nocontent", "writeheader", "htmlwith", "formatted",
+              "redirect0", "nocontent0", "success0", "error0")
+
+
+def coq_obs(obs):
+    hdr = coq_list("(%s, %s)" % (coq_string(k), coq_list(coq_string(v) for v in vs))
+                   for k, vs in sorted((obs.get("hdr") or {}).items()))
+    return "{| o_wh := %d; o_code := %s; o_hdr := %s; o_body := %s |}" % (
+        obs["wh"], coq_z(obs["code"]), hdr, coq_string(obs["body"]))
+
+
+def coq_ops(ops):
+    return coq_list(coq_op(x) for x in ops)
+
+
+def coq_scase(c, obs):
+    mws = coq_list("(%s, (%s, %s))" % (coq_z(m["prio"]), coq_ops(m["pre"]), coq_ops(m["post"])) for m in c["mws"])
+    err = "(Some %s)" % coq_ops(c["onerror"]) if c.get("throw") else "None"
+    return "(%s, %s, %s, %s)" % (mws, coq_ops(c["ops"]), err, coq_obs(obs))
+
+
+def server_cases(ck, rng):
+    """one request through a real Server: 0-2 middlewares with calls before and after $next, a handler,
+    and (only without middlewares) an uncaught throw handled by onError"""
+    cases = []
+    small = [["status", 201], ["status", 404], ["header", "X-A", "1"], ["header", "x-b", "2"], ["cookie", "t", "7"],
+             ["write", "a"], ["json", "[\"j\"]"], ["redirect", "/t", 302], ["nocontent", 204], ["writeheader", 500],
+             ["formatted", 422, "m"], ["htmlwith", "h", 418]]
+    # the audit's witnesses first
+    cases.append({"kind": "server", "mws": [], "ops": [["status", 201]], "throw": True, "onerror": [["status", 500], ["write", "E"]]})
+    cases.append({"kind": "server", "mws": [], "ops": [["write", "a"]], "throw": True, "onerror": [["status", 500], ["write", "E"]]})
+    cases.append({"kind": "server", "mws": [{"prio": 0, "pre": [["header", "X-Pre", "1"]],
+                                            "post": [["header", "X-After", "1"], ["status", 202], ["write", "M"]]}],
+                  "ops": [["status", 201]], "throw": False, "onerror": None})
+    # every (handler op, onError op) pair with a throw; every (pre, handler, post) triple with one middleware
+    for a in small:
+        for b in small:
+            cases.append({"kind": "server", "mws": [], "ops": [a], "throw": True, "onerror": [b]})
+    for a in small[:8]:
+        for b in small[:8]:
+            for c in small[:8]:
+                if ck.tier == "thorough" or rng.random() < 0.25:
+                    cases.append({"kind": "server", "mws": [{"prio": 0, "pre": [a], "post": [c]}], "ops": [b],
+                                  "throw": False, "onerror": None})
+    n = 150 if ck.tier == "quick" else 2500
+    for _ in range(n):
+        nm = rng.randint(0, 2)
+        mws = [{"prio": rng.choice([-1, 0, 0, 5]), "pre": [rand_op(rng, True) for _ in range(rng.randint(0, 2))],
+                "post": [rand_op(rng, True) for _ in range(rng.randint(0, 2))]} for _ in range(nm)]
+        thr = nm == 0 and rng.random() < 0.5
+        cases.append({"kind": "server", "mws": mws, "ops": [rand_op(rng, True) for _ in range(rng.randint(0, 4))],
+                      "throw": thr, "onerror": [rand_op(rng, True) for _ in range(rng.randint(0, 3))] if thr or rng.random() < 0.3 else None})
+    return cases
 
 
 def coq_case(ops, obs):
@@ -118,7 +200,7 @@ def main(ck):
         "sort.SliceStable assumed stable (modelled as stable insertion sort)",
         "harness/cmd/c13 (Go) and checks/C13.py (generators, Coq term printer)",
         "std/net/http/verif_export.go (build tag verif): thin forwarding wrappers",
-        "SendFile, Flush, Hijack, view/success/error/format are not modelled",
+        "SendFile, Flush, Hijack, view are not modelled; 1xx codes and the no-body rule of 204/304 of a real net/http server are outside the assumed writer contract (ResponseRecorder)",
     ]
     ok = ck.prove()
     binary, out = ck.go_build("c13")
@@ -144,10 +226,12 @@ def main(ck):
         nscript = 250 if ck.tier == "quick" else 2500
         for _ in range(nscript):
             n = rng.randint(1, 8)
-            cases.append({"kind": "ops", "mode": "script", "ops": [rand_op(rng) for _ in range(n)]})
-        # every single op and every ordered pair through the script-level methods
+            cases.append({"kind": "ops", "mode": "script", "ops": [rand_op(rng, True) for _ in range(n)]})
+        # every single op and every ordered pair through the script-level methods (incl. default
+        # arguments, two-argument cookie, out-of-range codes)
+        spool = script_pool()
         for n in (1, 2):
-            for seq in itertools.product(pool, repeat=n):
+            for seq in itertools.product(spool, repeat=n):
                 cases.append({"kind": "ops", "mode": "script", "ops": list(seq)})
     mcases = []
     if not ck.replay:
@@ -175,8 +259,13 @@ def main(ck):
         for _ in range(40 if ck.tier == "quick" else 600):
             mcases.append({"kind": "mwscript", "prios": [rng.choice([-(2**63 - 1), -1, 0, 1, 2**63 - 1, 2**62]) for _ in range(rng.randint(2, 6))]})
 
-    outs, rc, err = run_impl(binary, cases + mcases)
-    if len(outs) != len(cases) + len(mcases):
+    scases = [] if ck.replay else server_cases(ck, rng)
+    if ck.replay and cases and cases[0].get("kind") == "server":
+        scases, cases = cases, []
+    outs, rc, err = run_impl(binary, cases + mcases + scases)
+    o_srv = outs[len(cases) + len(mcases):]
+    outs = outs[:len(cases) + len(mcases)]
+    if len(outs) + len(o_srv) != len(cases) + len(mcases) + len(scases):
         ck.log("harness returned %d results for %d cases rc=%d\n%s" % (len(outs), len(cases) + len(mcases), rc, err[-2000:]))
         ck.broken.append("harness-run")
         ck.finish(evaluations=len(outs), distinct_nontrivial=0, rule="harness crashed")
@@ -203,6 +292,21 @@ def main(ck):
         else:
             ck.broken.append("correspondence:C13.ops")
             ck.violation(key, {"case": c, "impl_out": o, "clause": [clause_names[x] for x in cls]})
+    sterms, sidx = [], []
+    for i, (c, o) in enumerate(zip(scases, o_srv)):
+        if o.get("err"):
+            ck.violation("impl-error:server", {"case": c, "impl_out": o, "clause": "implementation raised"})
+            continue
+        sterms.append(coq_scase(c, o))
+        sidx.append(i)
+    sbad = ck.eval_cases("scases", HEADER, sterms, "check_scase", shard=600) if sterms else {}
+    for j, cls in sorted(sbad.items()):
+        c, o = scases[sidx[j]], o_srv[sidx[j]]
+        shape = "onerror" if c.get("throw") else "mw%d" % len(c["mws"])
+        key = "server:%s:clauses=%s" % (shape, "".join(map(str, cls)))
+        if not (2 in cls or 4 in cls):
+            ck.broken.append("correspondence:C13.server")
+        ck.violation(key, {"case": c, "impl_out": o, "clause": [clause_names[x] for x in cls]})
     mterms = []
     for c, o in zip(mcases, o_mw):
         if o.get("err"):
@@ -238,8 +342,11 @@ def main(ck):
     ck.cov["length_distribution"] = {str(n): sum(1 for c in cases if len(c["ops"]) == n) for n in range(0, 13)}
     ck.cov["modes"] = {m: sum(1 for c in cases if c["mode"] == m) for m in ("go", "script")}
     ck.cov["middleware_cases"] = len(mcases)
+    ck.cov["server_cases"] = {"total": len(scases), "onerror": sum(1 for c in scases if c.get("throw")),
+                              "with_middleware": sum(1 for c in scases if c["mws"])}
     ck.cov["exhaustive_ops_len"] = 3 if ck.tier == "quick" else 4
-    ck.finish(level="proof", evaluations=len(cases) + len(mcases),
+    ck.samples += scases[3:4]
+    ck.finish(level="proof", evaluations=len(cases) + len(mcases) + len(scases),
               distinct_nontrivial=nontriv + mdistinct,
               rule="op sequences: all sequences up to the stated length over a 15-op pool (go-level), every single op and ordered pair at script level, seeded random sequences of length 1..12; middleware stacks: all sub-multisets orderings of {-1,0,0,1,5} plus seeded random; non-trivial = distinct sequence with a committing op and at least one other op (ops) / more than one entry (middleware)",
-              traces=len(terms) + len(mterms))
+              traces=len(terms) + len(mterms) + len(sterms))
